@@ -104,6 +104,7 @@ impl Aml for RIMT {
     fn to_aml_bytes(&self, sink: &mut dyn AmlSink) {
         sink.vec(self.header.as_bytes());
 
+        assert!(self.devices.len() <= u32::MAX as usize, "too many RIMT devices");
         sink.dword(self.devices.len() as u32);
         sink.dword(Self::DEVICE_OFFSET);
         sink.dword(0); // reserved
@@ -248,6 +249,7 @@ impl Iommu {
 
 impl Aml for Iommu {
     fn to_aml_bytes(&self, sink: &mut dyn AmlSink) {
+        assert!(self.len() <= u16::MAX as usize, "IOMMU device does not fit its length field");
         // Type
         sink.byte(RimtDeviceType::Iommu as u8);
         // Revision
@@ -400,6 +402,7 @@ impl PcieRootComplex {
 
 impl Aml for PcieRootComplex {
     fn to_aml_bytes(&self, sink: &mut dyn AmlSink) {
+        assert!(self.len() <= u16::MAX as usize, "PCIe root complex device does not fit its length field");
         // Type
         sink.byte(RimtDeviceType::PcieRootComplex as u8);
         // Revision
@@ -462,6 +465,7 @@ impl Platform {
 
 impl Aml for Platform {
     fn to_aml_bytes(&self, sink: &mut dyn AmlSink) {
+        assert!(self.len() <= u16::MAX as usize, "platform device does not fit its length field");
         // Type
         sink.byte(RimtDeviceType::Platform as u8);
         // Revision
